@@ -10,7 +10,48 @@ K_NOTE_KERNEL = ("Trusted: Kani 0.68/CBMC 6.11/cadical; the symbolic kernel in e
                  "`syscall` instruction; contracts listed in evidence); bounds as stated; x86_64 only.")
 K_NOTE = "Trusted: Kani 0.68/CBMC 6.11/cadical; the short reference functions in the harness; bounds as stated; x86_64 only."
 
+M_TECH = "bounded model checking of schedules: nightly MIR of the real functions -> thread automata -> z3 (bit-blast + SAT) over all interleavings of <= K visible steps"
+M_NOTE = ("Trusted: rustc's MIR as a rendering of the source; the MIR interpreter in engine_m (subset, hard error on anything unknown); "
+          "the environment model (futex wait/wake, weak-CAS failure, SC interleavings + vector-clock happens-before) listed in evidence; z3. "
+          "Counterexample schedules are reported from the model as step lists; a native deterministic-scheduler replay is not implemented.")
+
 CHECKS = {
+    "C01": dict(engine="M", technique=M_TECH, design_ref="§4 C01",
+                text=("Bounded model checking over schedules: the MIR of Mutex::lock/try_lock/unlock (with lock_contended, spin, wake, "
+                      "futex_wait_fast, rusl's futex wrappers inlined down to the syscall asm!) is turned into thread automata; scheduler "
+                      "choice, wake choice, spurious futex returns and weak-CAS failures of every step are free variables. Queries per "
+                      "configuration: two live guards, data race (happens-before), all-parked deadlock, reachable panic, try_lock failing "
+                      "without having seen the lock held; plus 'all threads finish' as vacuity witness."),
+                note=M_NOTE + " Quick: 2 threads K=20..24 (four program mixes) and 3 threads K=20; thorough: up to K=40 / 4 threads."),
+    "C07": dict(engine="K", technique=K_TECH, design_ref="§4 C07",
+                text=("Bounded model checking of the start-up walk (tiny_start::start::resolve + AuxValues::from_auxv) over symbolic kernel "
+                      "stack images and of env::var/var_unix/args over symbolic environment blocks, against the definition 'first entry whose "
+                      "name equals the key exactly'."),
+                note=K_NOTE + " Partial: link modes, self-relocation, vDSO and the assembly entry point are outside (see evidence.outside_claim)."),
+    "C13": dict(engine="K", technique=K_TECH, design_ref="§4 C13",
+                text=("Bounded model checking of Command::spawn above a symbolic kernel in which fork returns symbolically as child or parent, "
+                      "any one system call may fail with any errno, execve succeeds or fails, and the parent's pipe read is scripted: spawn "
+                      "returns only in the caller; at exec the program, argv, envp, cwd, ids, process group and stdio are exactly the "
+                      "configured ones; a failing child step is reported with its positive errno; wait/try_wait report the kernel's status."),
+                note=K_NOTE_KERNEL + " Quick: <=1 arg/env entry, cwd/uid/stdin-pipe options; thorough: <=2, gid/pgroup/stdout descriptor."),
+    "C15": dict(engine="K", technique=K_TECH, design_ref="§4 C15",
+                text=("Bounded model checking of read_exact, write_all, write_fmt and the ReadBuf cursor arithmetic against a reader/writer "
+                      "whose every response (k bytes, 0, EINTR, error) is chosen by the solver."),
+                note=K_NOTE + " PARTIAL: read_to_end/read_to_string are NOT covered (CBMC ran out of 40-60 GB in every formulation tried). "
+                     "<= 8 bytes, <= 5 calls (9 in thorough)."),
+    "C16": dict(engine="K", technique=K_TECH, design_ref="§4 C16",
+                text=("Bounded model checking of the library side: ancillary-data iteration over exactly-filled, larger and too-small control "
+                      "buffers (no load outside, exactly the descriptors written), sockaddr_un/sockaddr_in conversions, and the ppoll wait "
+                      "logic (Timeout only after ppoll timed out with exactly the requested Duration, try_* never waits, EINTR retried)."),
+                note=K_NOTE_KERNEL + " PARTIAL: byte transport by the real kernel, MiB-scale buffers and two-process timing are outside."),
+    "C18": dict(engine="K", technique=K_TECH, design_ref="§4 C18",
+                text=("Bounded model checking of (1) setup_io_uring + drop above a kernel stand-in with exact mmap/munmap bookkeeping and one "
+                      "injected failure, (2) every submission-entry constructor against a field table transcribed from io_uring_enter(2)/liburing."),
+                note=K_NOTE_KERNEL + " PARTIAL: that the kernel executes an entry with the direct system call's result is outside."),
+    "C20": dict(engine="K", technique=K_TECH, design_ref="§4 C20",
+                text=("Bounded model checking of the parsers generated by the derive macros for four struct shapes, differentially against "
+                      "reference parsers written from the declared grammar, over argument vectors of arbitrary bytes; panics are failures."),
+                note=K_NOTE + " <= 3 arguments of <= 3 bytes (4 in thorough) plus one 140-byte argument through the real formatter."),
     "C08": dict(engine="K", technique=K_TECH, design_ref="§4 C08",
                 text=("Bounded model checking of tiny-start's memcpy/memmove/memset/memcmp/bcmp with symbolic length, both "
                       "misalignments, overlap distance, fill byte and all buffer bytes; the C definition is asserted at a symbolic index over "
